@@ -914,6 +914,7 @@ impl Engine for SerdeEngine {
         // ---- concrete payload types through serde's own in-memory deserialisers ----
         concrete(c);
         unsized_probes(c);
+        spy_probe();
         // ---- the same value inside payload types of other inline sizes and alignments ----
         match c.p(1) % 5 {
             0 => shaped::<Pad<16>>(&val, c),
@@ -1159,6 +1160,34 @@ fn unsized_probes(c: &ByteCase) {
     str_kind!(Arc<str>, "Arc<str>");
     str_kind!(Arc<String>, "Arc<String>");
     str_kind!(Arc<Box<str>>, "Arc<Box<str>>");
+}
+
+/// A payload whose own Serialize impl can see the reference count of the allocation it lives in (a copy-on-write
+/// node deciding "inline or shared"): serialising through the handle must show it the same count as serialising
+/// the value directly.
+struct Spy;
+thread_local! {
+    static SPY_HANDLE: std::cell::Cell<*const Arc<Spy>> = const { std::cell::Cell::new(std::ptr::null()) };
+}
+impl Serialize for Spy {
+    fn serialize<S: Serializer>(&self, s: S) -> Result<S::Ok, S::Error> {
+        let p = SPY_HANDLE.with(|c| c.get());
+        let n = if p.is_null() { 0 } else { Arc::count(unsafe { &*p }) as u64 };
+        s.serialize_u64(n)
+    }
+}
+fn spy_probe() {
+    let a = Arc::new(Spy);
+    let b = a.clone();
+    SPY_HANDLE.with(|c| c.set(&a as *const Arc<Spy>));
+    let (lv, lh) = (new_log(0), new_log(0));
+    let rv = (*a).serialize(RecSer(lv.clone()));
+    let rh = a.serialize(RecSer(lh.clone()));
+    SPY_HANDLE.with(|c| c.set(std::ptr::null()));
+    if lv.borrow().calls != lh.borrow().calls || rv != rh {
+        viol::report_sig(P, "D.ser-trace", "Arc.serialize:count-seen-by-payload".into(), format!("a payload whose Serialize impl reads its allocation's reference count sees {:?} when serialised directly but {:?} through the handle (2 owners exist)", lv.borrow().calls, lh.borrow().calls));
+    }
+    drop(b);
 }
 
 /// A zero-sized payload: `()` (serialises as unit).
